@@ -1,17 +1,17 @@
 SPECIFICATION ISpec
 CONSTANTS
-  P = 2
+  P = 1
   C = 2
   L = 0
-  MaxProd = 3
-  NB = 0
+  MaxProd = 0
+  NB = 2
   MaxTog = 0
   MaxFail = 0
-  Variant = "ok"
+  Variant = "nolock"
   Mode = "free"
   SeqCalls = FALSE
   Emit = FALSE
   MinCmd = 0
-INVARIANTS Refines DeadEndsAreComplete QTypeOK ActiveOK OneConsumer Returned CounterAgrees
+INVARIANTS Refines
 VIEW View
 CHECK_DEADLOCK FALSE
